@@ -397,3 +397,16 @@ O("C05.send_rrul.sets", "C05", "h_C05.c", "h_C05_send_rrul_sets",
   ["send_rrul"], kind="bounded", bound="at most 3 values per list (values symbolic over the whole range)", unwind=6,
   cbmc_flags=["--unwindset", "bui31_next.0:34,bui63_next.0:66"],
   solver=["minisat", "kissat"], timeout={"quick": 900, "thorough": 3600}, replay=False, replay_note="fdprnt.h replaced by recorder")
+
+# ------------------------------------------------------------------ C01 / C17 / C13 manifest texts
+P("C01", level="other",
+  level_text="The full statement (expansion == RFC 5545 recurrence set for every rule) decomposes into calendar kernels, steppers, limiters, set builders, cut and the refill boundary (DESIGN 4, C01). Discharged on the real evrrul.c / bitint code for all inputs: every calendar kernel the fillers use equals the specification written from ISO 8601 / RFC 5545 (weekday, 28-year table, ISO weeks, n-th weekday of month and year incl. negative ordinals, ISO week to date incl. neighbouring years, day-of-year inversions, Easter), the BYxxx containers behave as sets with complete ordered iteration (C19), and the SECONDLY filler's stepping, filtering, DTSTART/UNTIL/COUNT cut and ordering (C09.Sly). The other fillers, the YEARLY/MONTHLY set builders, BYSETPOS and the composition into 'equals the RFC set' are not covered.",
+  level_note="Trusted: spec_cal.h as the calendar definition (self-tested against libc), CBMC semantics. Known finding KF-C01-ywd-prev-december. Not covered: rrul_fill_yly/mly/wly/dly/Hly/Mly as wholes, fill_yly_*/fill_mly_* builders, clr_poss (BYSETPOS), refill boundary / restart consistency, snarf_rrule, composition lemma L-C01.",
+  explanation="kernels, containers and one filler are proved for all inputs; the expansion as a whole is not reached by any discharged obligation",
+  not_covered=["YEARLY/MONTHLY/WEEKLY/DAILY/HOURLY/MINUTELY fillers as wholes", "set builders fill_yly_*/fill_mly_*, clr_poss (BYSETPOS), shift", "refill boundary (restart consistency, COUNT bookkeeping)", "composition lemma L-C01 (prose)", "snarf_rrule text parsing"])
+P("C17", level="other",
+  level_text="BYEASTER rests on easter_get_yday, proved equal to the anonymous Gregorian computus (Meeus/Jones/Butcher) for every year 1901..2099 together with the day-of-year inversions it is combined with (C01.k.yd_to_md). The SHIFT semantics (shift(), day and business-day forms) and fill_yly_eastr's year-boundary handling are not covered by any obligation.",
+  level_note="Trusted: spec_cal.h computus (self-tested on known Easter dates at setup). Not covered: shift(), fill_yly_eastr, snarf_shift, the echs_shift_* decoders.",
+  explanation="the Easter clause is proved for all years; the SHIFT clauses are not covered",
+  not_covered=["shift(): calendar-day and business-day shifts, -0B, B+/B-", "fill_yly_eastr: N days from Easter across the year boundary", "snarf_shift text parsing"])
+P("C13", not_applicable="executor output routing is kernel/process behaviour (pipes, splice/tee/sendfile, exec, signals, waitpid): no function contract within CBMC's reach can express 'every byte the job writes arrives exactly once'; proving a model of the kernel would be a different technique family (DESIGN.md section 7)")
